@@ -99,9 +99,55 @@ type Transport struct {
 	lastPartial bool
 	// write-side calls in progress (Write, Writev, Flush): a transport is not safe for concurrent use, the channel
 	// has to serialise them. overlap describes the first time two of them were in progress at once.
-	wActive int
-	wKind   string
-	overlap string
+	wDeadline time.Time
+	// StallWrites: the peer has stopped reading and the send buffer is full: Write/Writev park until the transport is closed
+	StallWrites bool
+	stallParked int // parked writers the Tracker counts as not running
+	stallGen    int
+	wActive     int
+	wKind       string
+	overlap     string
+}
+
+// stallLocked parks a writer while StallWrites is set (real-goroutine mode only); Close wakes it.
+func (t *Transport) stallLocked() {
+	counted, gen := false, t.stallGen
+	for t.StallWrites && !t.closed && t.S == nil {
+		if t.Tracker != nil && !counted {
+			counted, gen = true, t.stallGen
+			t.stallParked++
+			t.Tracker.End()
+		}
+		t.cond.Wait() // the condition variable is shared with the reader: wake-ups may be for somebody else
+		if gen != t.stallGen {
+			counted = false // wakeStalledLocked has called Tracker.Begin on our behalf
+		}
+	}
+	if counted {
+		// released by a change of the flags without wakeStalledLocked: cannot happen, but keep the count right
+		t.stallParked--
+		t.Tracker.Begin()
+	}
+}
+
+// SetStall switches the stalled-peer behaviour on or off (off wakes the parked writers).
+func (t *Transport) SetStall(on bool) {
+	t.mu.Lock()
+	t.StallWrites = on
+	if !on {
+		t.wakeStalledLocked()
+	}
+	t.mu.Unlock()
+}
+
+func (t *Transport) wakeStalledLocked() {
+	t.stallGen++
+	if t.Tracker != nil {
+		for ; t.stallParked > 0; t.stallParked-- {
+			t.Tracker.Begin()
+		}
+	}
+	t.cond.Broadcast()
 }
 
 func (t *Transport) enterW(kind string) {
@@ -195,12 +241,19 @@ func (t *Transport) Write(p []byte) (int, error) {
 	t.yield("t.write", nil)
 	t.mu.Lock()
 	idx := t.record(TEvent{Kind: "write", Start: len(t.accepted)})
+	t.stallLocked()
 	if t.closed {
 		t.AfterCloseWrites += len(p)
 		t.Events[idx].Rejected, t.Events[idx].Err, t.Events[idx].End = true, ErrClosedConn.Error(), len(t.accepted)
 		t.Events[idx].EndSeq = t.seq()
 		t.mu.Unlock()
 		return 0, ErrClosedConn
+	}
+	if err := t.deadlineErrLocked(); err != nil {
+		t.Events[idx].Rejected, t.Events[idx].Err, t.Events[idx].End = true, err.Error(), len(t.accepted)
+		t.Events[idx].EndSeq = t.seq()
+		t.mu.Unlock()
+		return 0, err
 	}
 	if err := t.fault("write"); err != nil {
 		t.Events[idx].Rejected, t.Events[idx].Err, t.Events[idx].End = true, err.Error(), len(t.accepted)
@@ -251,12 +304,19 @@ func (t *Transport) Writev(buffs transport.Buffers) (int64, error) {
 	for _, b := range buffs {
 		total += len(b)
 	}
+	t.stallLocked()
 	if t.closed {
 		t.AfterCloseWrites += total
 		t.Events[idx].Rejected, t.Events[idx].Err, t.Events[idx].End = true, ErrClosedConn.Error(), len(t.accepted)
 		t.Events[idx].EndSeq = t.seq()
 		t.mu.Unlock()
 		return 0, ErrClosedConn
+	}
+	if err := t.deadlineErrLocked(); err != nil {
+		t.Events[idx].Rejected, t.Events[idx].Err, t.Events[idx].End = true, err.Error(), len(t.accepted)
+		t.Events[idx].EndSeq = t.seq()
+		t.mu.Unlock()
+		return 0, err
 	}
 	if err := t.fault("writev"); err != nil {
 		t.Events[idx].Rejected, t.Events[idx].Err, t.Events[idx].End = true, err.Error(), len(t.accepted)
@@ -301,6 +361,10 @@ func (t *Transport) Flush() error {
 		t.Events[idx].Rejected, t.Events[idx].Err, t.Events[idx].End = true, ErrClosedConn.Error(), t.flushed
 		return ErrClosedConn
 	}
+	if err := t.deadlineErrLocked(); err != nil && len(t.accepted) > t.flushed {
+		t.Events[idx].Rejected, t.Events[idx].Err, t.Events[idx].End = true, err.Error(), t.flushed
+		return err
+	}
 	if err := t.fault("flush"); err != nil {
 		t.Events[idx].Rejected, t.Events[idx].Err, t.Events[idx].End = true, err.Error(), t.flushed
 		return err
@@ -323,7 +387,7 @@ func (t *Transport) Close() error {
 	}
 	t.closed = true
 	t.wakeReaderLocked()
-	t.cond.Broadcast()
+	t.wakeStalledLocked()
 	if t.OnClose != nil {
 		t.mu.Unlock()
 		t.OnClose()
@@ -512,7 +576,16 @@ func (t *Transport) SetReadDeadline(d time.Time) error { return nil }
 func (t *Transport) SetWriteDeadline(d time.Time) error {
 	t.mu.Lock()
 	t.record(TEvent{Kind: "deadline"})
+	t.wDeadline = d
 	t.mu.Unlock()
+	return nil
+}
+
+// deadlineErrLocked: like a real connection, a write-side call made when the armed write deadline has passed fails at once.
+func (t *Transport) deadlineErrLocked() error {
+	if !t.wDeadline.IsZero() && !time.Now().Before(t.wDeadline) {
+		return &NetErr{Msg: "verif: mock i/o timeout (write deadline passed)", TO: true}
+	}
 	return nil
 }
 func (t *Transport) RawTransport() interface{} { return nil }
